@@ -135,6 +135,16 @@ func cmdFree(args []string) {
 		jobs = append(jobs, jt{j, t, key})
 		out.Jobs[ks] = i
 	}
+	// jobs whose trigger gives up: an unrelated error at the 8th call, the expiry sentinel wrapped with %w at the 6th
+	for i, fc := range []struct{ from, code int }{{8, 9}, {6, wrappedExpired}} {
+		key := quartz.NewJobKey("err" + strconv.Itoa(i))
+		ks := keyStr(key)
+		t := newSimple(40+i, int64((4+2*time.Duration(i))*time.Millisecond))
+		t.failFrom, t.failCode = fc.from, fc.code
+		t.log, t.key = log, ks
+		jobs = append(jobs, jt{&rjob{key: ks, tid: 40 + i, log: log}, t, key})
+		out.Jobs[ks] = 40 + i
+	}
 	{ // run-once job
 		key := quartz.NewJobKey("once")
 		ks := keyStr(key)
